@@ -40,7 +40,7 @@ for p in props:
 
 man = dict(
     version=1,
-    setup_cmd="cd lean && lake build",
+    setup_cmd="./tools/setup.sh",
     hooks=dict(guard="FDAPY_VERIF", enable="no source hooks: the harness wraps FDApy/NumPy entry points from outside, in-process (FDAPY_VERIF=1 is exported for completeness)",
                baseline_off_cmd="cd /repo && /venv/bin/python -m pytest -ra -q -p no:cacheprovider --timeout=900 --continue-on-collection-errors",
                source_commits=[], add_only=True),
